@@ -75,7 +75,38 @@ func (w *recWriter) Write(p []byte) (int, error) {
 
 var formats = []string{"json", "f1", "f2"}
 
-func content(f string) []byte { return []byte("<<" + f + "-bytes>>\n") }
+// content is what a formatter stored for format f: a newline-terminated line for json, bytes without a
+// trailing newline for f1, bytes with an embedded newline and NUL (and no trailing newline) for f2 - a sink
+// delivers exactly these, it does not tidy them up.
+func content(f string) []byte {
+	switch f {
+	case "f1":
+		return []byte("<<f1-bytes>>")
+	case "f2":
+		return []byte("<<f2\x00by\ntes>>")
+	}
+	return []byte("<<" + f + "-bytes>>\n")
+}
+
+// stored puts content(f) into a slice with spare capacity (as an encoder's buffer has): a sink must
+// not write into the room behind the bytes it was given either.
+func stored(f string) []byte {
+	c := content(f)
+	b := make([]byte, len(c), len(c)+8)
+	copy(b, c)
+	return b
+}
+
+// untouched reports whether the event still holds exactly what was stored, spare capacity included.
+func untouched(e *el.Event) string {
+	for f, b := range e.Formatted {
+		full := b[:cap(b)]
+		if !bytes.Equal(b, content(f)) || !bytes.Equal(full[len(b):], make([]byte, cap(b)-len(b))) {
+			return fmt.Sprintf("the sink modified the bytes the event holds for format %q (now %q, room behind them %q)", f, b, full[len(b):])
+		}
+	}
+	return ""
+}
 
 // ---- (a) tables ----------------------------------------------------------------------
 
@@ -99,7 +130,7 @@ func eventFor(mask int) *el.Event {
 	e := &el.Event{Type: "t", Formatted: map[string][]byte{}}
 	for i, f := range formats {
 		if mask&(1<<i) != 0 {
-			e.FormattedAs(f, content(f))
+			e.FormattedAs(f, stored(f))
 		}
 	}
 	return e
@@ -164,7 +195,7 @@ func runTable(name string, scratch string) string {
 		if has && (n != 1 || !bytes.Equal(writes[0], content(eff))) {
 			return fmt.Sprintf("writer.Sink made %d write(s) %q; exactly one write of %q expected", n, writes, content(eff))
 		}
-		return ""
+		return untouched(e)
 	}
 	// FileSink
 	dir, _ := os.MkdirTemp(scratch, "c13")
@@ -230,7 +261,7 @@ func runTable(name string, scratch string) string {
 	if !bytes.Equal(got, want) {
 		return fmt.Sprintf("FileSink(%s) delivered %q, want exactly %q", path, got, want)
 	}
-	return ""
+	return untouched(e)
 }
 
 // ---- (b) concurrent Process on one writer.Sink ---------------------------------------
